@@ -644,7 +644,38 @@ pub fn run(ctx: &mut Ctx) -> Report {
 					let _ = std::fs::remove_file(&dir);
 				}
 			}
-			s.rep.exhaustive.push("command-line tool: a write fault at each of the four output files and at the output directory x 3 key algorithms; stdout and stderr searched for the keys already written and for the common beginnings of PKCS#8 documents".into());
+			// the tool's explicit private-key outputs are the two files <name>.key.pem of the names it
+			// is given: after a successful run no other file in the directory holds a private key,
+			// whatever the names look like (dots, names ending like the tool's own suffixes)
+			for (cert_name, ca_name) in [("cert", "root-ca"), ("root-ca.key.pem", "root-ca"), ("leaf.pem", "ca.pem"), ("x.key", "y"), ("a.key.pem", "a.key"), ("www.example.org", "ca.example.org")] {
+				let dir = format!("/verif/.cache/c19_cli_names_{}", std::process::id());
+				let _ = std::fs::remove_dir_all(&dir);
+				let out = std::process::Command::new(&cli).args(["-o", &dir, "--san", "x.example", &format!("--cert-file-name={}", cert_name), &format!("--ca-file-name={}", ca_name)]).env("RUST_BACKTRACE", "0").output();
+				let Ok(out) = out else { continue };
+				s.rep.case(&format!("cli key files for names {} / {}", cert_name, ca_name), true);
+				if out.status.success() {
+					let allowed = [format!("{}.key.pem", cert_name), format!("{}.key.pem", ca_name)];
+					let mut holders: Vec<String> = Vec::new();
+					if let Ok(rd) = std::fs::read_dir(&dir) {
+						for e in rd.filter_map(|e| e.ok()) {
+							let name = e.file_name().to_string_lossy().to_string();
+							let text = std::fs::read(e.path()).unwrap_or_default();
+							let t = String::from_utf8_lossy(&text);
+							let holds = t.contains("PRIVATE KEY") || pem::parse_many(&text).map(|ps| ps.iter().any(|p| KeyPair::try_from(p.contents()).is_ok())).unwrap_or(false);
+							if holds {
+								holders.push(name);
+							}
+						}
+					}
+					holders.sort();
+					s.rep.count("cli_key_file_sets_checked");
+					if let Some(extra) = holders.iter().find(|h| !allowed.contains(h)) {
+						s.rep.violate("C19:leak:cli-file", "after a successful run a file other than the two key files the options name holds a private key", format!("--cert-file-name={} --ca-file-name={}\nkey files named by the options: {:?}\nfiles that hold a private key: {:?} (first unexpected: {})", cert_name, ca_name, allowed, holders, extra));
+					}
+				}
+				let _ = std::fs::remove_dir_all(&dir);
+			}
+			s.rep.exhaustive.push("command-line tool: a write fault at each of the four output files and at the output directory x 3 key algorithms; stdout and stderr searched for the keys already written and for the common beginnings of PKCS#8 documents; for 6 pairs of base names (dots, names ending like the tool's suffixes) the files that hold a private key are the two the options name".into());
 		} else {
 			s.rep.notes.push("the command-line tool was not built: its diagnostics were not examined".into());
 		}
